@@ -6,7 +6,7 @@
 From DV Require Import Base.Prelude Model.NameM Model.TokM Model.RdTextM.
 From DV Require Import Proofs.NameValid Proofs.NameOrder Proofs.NameText.
 From DV Require Import Proofs.TokEsc Proofs.TokTxt Proofs.TokWords Proofs.TokDec Proofs.TokHex
-     Proofs.TokShape Proofs.TokGeneric Proofs.RdTextName Proofs.RdText Proofs.RdTextRel.
+     Proofs.TokShape Proofs.TokGeneric Proofs.TokUtf8 Proofs.RdTextName Proofs.RdText Proofs.RdTextRel.
 Open Scope Z_scope.
 
 (* ------------------------------------------------------------------ character-strings *)
@@ -50,6 +50,30 @@ Theorem quotedcp_refuted :
   exists s, all_bytes s = true /\ (do u <- ue_loop (escapify s) []; utf8_encode u) <> Ok s.
 Proof. exact codepoint_path_refuted. Qed.
 Print Assumptions quotedcp_refuted.
+
+(* RdataStyle.txt_is_utf8 (documented as lossless): strings that are well-formed UTF-8 are printed as
+   characters by _escapify_unicode, the others octet-wise; both settings read back as the octets.
+   utf8_decode is the strict decoder (Unicode table 3-7) and is the left inverse of str.encode(). *)
+Theorem quoted_bytes_roundtrip_styles : forall utf8 strings rest,
+  strings <> [] ->
+  Forall (fun s => all_bytes s = true /\ zlen s <= 255) strings ->
+  (rest = [] \/ exists r, rest = 10 :: r) ->
+  rdata_from_text_txt (txt_to_text_style utf8 strings ++ rest) = Ok strings.
+Proof. exact txt_roundtrip_style. Qed.
+Print Assumptions quoted_bytes_roundtrip_styles.
+
+Theorem utf8_decode_then_encode : forall s u,
+  utf8_decode s = Some u -> utf8_encode u = Ok s /\ Forall (fun c => 0 <= c) u.
+Proof. exact utf8_decode_encode. Qed.
+Print Assumptions utf8_decode_then_encode.
+
+Example quoted_bytes_roundtrip_styles_nonvacuous :
+  (* U+00A0, U+200B, U+3000, a control character, a quote; then an ill-formed sequence *)
+  let strings := [[194; 160; 226; 128; 139; 227; 128; 128; 1; 34]; [192; 128; 255]] in
+  txt_to_text_style true strings
+    = [34; 160; 8203; 12288; 92; 48; 48; 49; 92; 34; 34; 32; 34; 92; 49; 57; 50; 92; 49; 50; 56; 92; 50; 53; 53; 34]
+  /\ rdata_from_text_txt (txt_to_text_style true strings ++ [10]) = Ok strings.
+Proof. split; vm_compute; reflexivity. Qed.
 
 (* ------------------------------------------------------------------ numbers, hex, base64, chunking *)
 
@@ -178,7 +202,7 @@ Print Assumptions name_relativity_absout.
 
 (* non-vacuity: an SOA and a NAPTR with awkward octets, origin ex., relativized output, chunking *)
 Definition ex_origin : name := [[101; 120]; []].
-Definition ex_sty : style := mkStyle (Some ex_origin) true 3 [32; 9] 5 [32].
+Definition ex_sty : style := mkStyle (Some ex_origin) true 3 [32; 9] 5 [32] true.
 Definition ex_ctx : pctx := mkPctx (Some ex_origin) true None.
 Definition ex_soa : list tval :=
   [VName [[64; 46; 0]; [101; 120]; []]; VName [[]]; VInt 4294967295; VInt 0; VInt 1; VInt 7; VInt 2147483647].
@@ -232,7 +256,7 @@ Print Assumptions name_from_text_valid.
 (* C05-empty-field-no-text: a record whose rest-of-line hex/base64 field is empty prints a text that
    from_text rejects (SSHFP 1 1 with an empty fingerprint) *)
 Theorem empty_rest_field_refuted :
-  exists fs vs text, schema_of 44 = Some fs /\ record_to_text (mkStyle None false 128 [32] 32 [32]) fs vs = Ok text /\
+  exists fs vs text, schema_of 44 = Some fs /\ record_to_text (mkStyle None false 128 [32] 32 [32] false) fs vs = Ok text /\
     record_from_text (mkPctx None true None) fs (text ++ [10]) <> Ok vs.
 Proof.
   exists [u8; u8; FHexRest], [VInt 1; VInt 1; VBytes []], [49; 32; 49; 32].
